@@ -25,5 +25,7 @@ func init() {
 			Stubs: stubs, Outside: outside, Assumptions: assume},
 		{Name: "forks", Pkg: "internal/validitywindow", Files: files, Entry: "VerifC09Forks", IntMode: true, Reach: []string{"rejected", "verified-with-txs", "accept", "repeat-attempt"},
 			Stubs: stubs, Outside: append([]string{"expiry 0 (own harness)", "restarts (linear harness)", "histories continuing after a block that repeats a transaction was offered"}, outside...), Assumptions: assume},
+		{Name: "concurrent", Pkg: "internal/validitywindow", Files: files, Entry: "VerifC09Concurrent", IntMode: true, Sched: true, Preempt: [2]int{2, 3},
+			Stubs: stubs, Assumptions: assume, Outside: []string{"more than one block being accepted while one child is verified / one builder question is asked", "schedules beyond the preemption bound"}},
 	}})
 }
